@@ -207,10 +207,16 @@ class Prog:
             n_ann = sum(normalise.plain_assignments(t) for t in trees.values())
             n_any = sum(normalise.any_to_loop(t) for t in trees.values())
             n_mf = sum(normalise.map_filter_to_comprehensions(t) for t in trees.values())
+            n_ci = sum(normalise.expand_container_idioms(t) for t in trees.values())
+            n_cg = sum(normalise.continue_guards_to_branches(t) for t in trees.values())
+            n_nnf = sum(normalise.negation_normal_form(t) for t in trees.values())
             self.norm_stats = normalise.absorb_helpers(trees)
             self.norm_stats["annotated_assignments"] = n_ann
             self.norm_stats["any_tests_to_search_loops"] = n_any
             self.norm_stats["map_filter_to_comprehensions"] = n_mf
+            self.norm_stats["container_idioms_expanded"] = n_ci
+            self.norm_stats["continue_guards_to_branches"] = n_cg
+            self.norm_stats["conditions_to_negation_normal_form"] = n_nnf
             self.norm_stats["constants_inlined"] = normalise.inline_constants(trees)
             self.norm_stats["accumulator_loops_folded"] = sum(normalise.fold_accumulator_loops(t) for t in trees.values())
             self.norm_stats["single_use_temporaries_inlined"] = sum(normalise.inline_single_use_temps(t) for t in trees.values())
